@@ -6,6 +6,17 @@ verif = os.path.dirname(here)
 claims = json.load(open(os.path.join(here, "claims.json")))
 props = [json.loads(l)["id"] for l in open(os.path.join(verif, "properties.jsonl"))]
 baseline = json.load(open("/root/.vp/BASELINE.json"))["cmd"] if os.path.exists("/root/.vp/BASELINE.json") else ""
+def extra_rules(pid, text):
+    """Names the armed rules (from the last evidence file) so the claim always matches what runs."""
+    ev = os.path.join(verif, "evidence", pid + ".json")
+    if not os.path.exists(ev):
+        return ""
+    try:
+        rules = json.load(open(ev))["coverage"]["rules"]
+    except Exception:
+        return ""
+    return " Armed rules (instances on the reference tree): " + "; ".join(f"{r['rule']} [{r['instances']}] {r['what'].split(':')[0][:90]}" for r in rules) + "."
+
 checks, na = [], []
 for pid in props:
     c = claims.get(pid)
@@ -19,7 +30,7 @@ for pid in props:
         "evidence_file": f"/verif/evidence/{pid}.json",
         "replay_cmd_template": f"./check {pid} --explain {{path}}",
         "engine": "conduitlint",
-        "level_claimed": {"category": "other", "text": c["text"], "design_ref": c.get("design_ref", f"DESIGN.md §5 {pid}")},
+        "level_claimed": {"category": "other", "text": c["text"] + extra_rules(pid, c["text"]), "design_ref": c.get("design_ref", f"DESIGN.md §5 {pid} and §10")},
         "level_note": c["note"],
         "technique": c["technique"],
     })
